@@ -90,7 +90,6 @@ def Dop.staticBitLen : Dop → Option Nat
   | .simple dct _ _ => dct.staticBitLen
   | .struct (some bs) _ => some (8 * bs)
   | .struct none ps => (paramsStaticLen ps 0 0).map (8 * ·)
-  | .staticField count itemSize _ => some (8 * count * itemSize)
   | _ => none
 def PKind.staticBitLen : PKind → Option Nat
   | .codedConst dct _ => dct.staticBitLen
